@@ -38,6 +38,33 @@ QUICK = dict(grids=['sq3g', 'L3g', 'int2o'], hist=1, sigmas=[1, 2])
 THOROUGH = dict(grids=['sq3g', 'sq4g', 'L3g', 'L4g', 'int2o', 'sq3g2t', 'L3g2t'], hist=2, sigmas=[1, 2])
 
 
+def grade_and_check(eng, mesh, sigma, fail):
+    ref_before, _ = meshsym.ref_of(mesh)
+    mesh.refine_grading(sigma=sigma, K=K)
+    # postconditions
+    # the fresh-point tiling query is posed for moderate meshes; beyond that tiling is decided on the reference
+    # rectangles (exact integers) together with the ancestry verdict
+    big = len(mesh.leaf_elements) > 48
+    ref_after, lmap = meshsym.check_state(eng, mesh, fail, linear=True, want_tiling=not big, want_vertices=not big)
+    if big and not ref_after.is_tiling():
+        fail('tiling:ref', 'Ref rectangles of the leaves do not tile the index cylinder', None)
+    claims, seen = [], set()
+    for e in mesh.leaf_elements:
+        k = (SR.lift(e.h_t).key(), SR.lift(e.h_x).key())
+        if k in seen:
+            continue
+        seen.add(k)
+        claims.append(z3.And(z3bool(e.h_t < K * e.h_x**sigma), z3bool(e.h_x**sigma < K * e.h_t)))
+    ok, m = eng.prove(z3.And(claims), 'window')
+    if not ok:
+        fail('window', 'a leaf is outside h_t/K < h_x^sigma < K*h_t after grading', m)
+    # only refines: every new rectangle lies inside an old one
+    for r in ref_after.leaves:
+        if not any(o.j == r.j and o.i == r.i and o.t0 <= r.t0 and r.t1 <= o.t1 and o.x0 <= r.x0 and r.x1 <= o.x1
+                   for o in ref_before.leaves):
+            fail('coarsened', 'leaf %r after grading is not contained in a leaf of the mesh before' % (r, ), None)
+
+
 def cumul(mults, unit):
     out = [unit * 0]
     for m in mults:
@@ -46,6 +73,8 @@ def cumul(mults, unit):
 
 
 def run_one(eng, M, gridname, sigma, hist_len, fail, concrete=None):
+    sigmas = list(sigma) if isinstance(sigma, (tuple, list)) else [sigma]
+    sigma = sigmas[0]
     sm, tm, glued = GRIDS19[gridname]
     n_t, n_x = len(tm), len(sm)
     if concrete:
@@ -58,9 +87,10 @@ def run_one(eng, M, gridname, sigma, hist_len, fail, concrete=None):
         eng.assume(w > 0)
         eng.assume(tau > 0)
         # bounded parabolic ratio of the unit cell => bounded number of sweeps
-        ratio = RATIO_DIRECTED if isinstance(hist_len, (tuple, list)) else RATIO
-        eng.assume(w**sigma * ratio >= tau)
-        eng.assume(w**sigma <= ratio * tau)
+        ratio = RATIO_DIRECTED if (isinstance(hist_len, (tuple, list)) or len(sigmas) > 1) else RATIO
+        for sg in sigmas:
+            eng.assume(w**sg * ratio >= tau)
+            eng.assume(w**sg <= ratio * tau)
         xs, ts = cumul(sm, w), cumul(tm, tau)
         xs[0], ts[0] = SR.const(0), SR.const(0)
         mesh = M.Mesh(glue_space=glued, initial_space_mesh=xs, initial_time_mesh=ts)
@@ -97,30 +127,8 @@ def run_one(eng, M, gridname, sigma, hist_len, fail, concrete=None):
         if act[1] == 9:
             continue  # no-op: shorter history
         c02.apply_action(mesh, leaves, act)
-    ref_before, _ = meshsym.ref_of(mesh)
-    mesh.refine_grading(sigma=sigma, K=K)
-    # postconditions
-    # the fresh-point tiling query is posed for moderate meshes; beyond that tiling is decided on the reference
-    # rectangles (exact integers) together with the ancestry verdict
-    big = len(mesh.leaf_elements) > 48
-    ref_after, lmap = meshsym.check_state(eng, mesh, fail, linear=True, want_tiling=not big, want_vertices=not big)
-    if big and not ref_after.is_tiling():
-        fail('tiling:ref', 'Ref rectangles of the leaves do not tile the index cylinder', None)
-    claims, seen = [], set()
-    for e in mesh.leaf_elements:
-        k = (SR.lift(e.h_t).key(), SR.lift(e.h_x).key())
-        if k in seen:
-            continue
-        seen.add(k)
-        claims.append(z3.And(z3bool(e.h_t < K * e.h_x**sigma), z3bool(e.h_x**sigma < K * e.h_t)))
-    ok, m = eng.prove(z3.And(claims), 'window')
-    if not ok:
-        fail('window', 'a leaf is outside h_t/K < h_x^sigma < K*h_t after grading', m)
-    # only refines: every new rectangle lies inside an old one
-    for r in ref_after.leaves:
-        if not any(o.j == r.j and o.i == r.i and o.t0 <= r.t0 and r.t1 <= o.t1 and o.x0 <= r.x0 and r.x1 <= o.x1
-                   for o in ref_before.leaves):
-            fail('coarsened', 'leaf %r after grading is not contained in a leaf of the mesh before' % (r, ), None)
+    for sigma in sigmas:   # a second grading with another exponent runs on the SAME mesh object (state must not leak)
+        grade_and_check(eng, mesh, sigma, fail)
     return hist, len(mesh.leaf_elements)
 
 
@@ -245,6 +253,10 @@ def run(out):
                     cases.append((g, sigma, cfg['hist'], (c, ), out.seed))
             else:
                 cases.append((g, sigma, 0, (), out.seed))
+    # two gradings with different exponents on one mesh object
+    for g in (['sq3g', 'L3g'] if out.tier == 'quick' else ['sq3g', 'L3g', 'L4g', 'int2o', 'sq3g2t']):
+        for pair in ((2, 1), (1, 2)):
+            cases.append((g, pair, 0, (), out.seed))
     # point-directed histories on the single-slab grids
     quick = out.tier == 'quick'
     dgrids = ['sq3g', 'L3g'] if quick else ['sq3g', 'L3g', 'L4g', 'int2o']
@@ -261,7 +273,7 @@ def run(out):
                         cases.append((g, sigma, ('directed', corner, ks, kt, order), (), out.seed))
     results = report.pmap('checks.c19', 'worker', cases)
     for c, r in zip(cases, results):
-        report.merge_worker(out, r, part='%s sigma=%d%s' % (c[0], c[1], '' if isinstance(c[2], int) else ' directed'))
+        report.merge_worker(out, r, part='%s sigma=%s%s' % (c[0], c[1], '' if isinstance(c[2], int) else ' directed'))
     out.bounds = dict(grids={g: dict(space_cells_in_units_of_w=GRIDS19[g][0], slabs_in_units_of_tau=GRIDS19[g][1],
                                      glued=GRIDS19[g][2]) for g in cfg['grids']}, history_before_grading=cfg['hist'],
                       directed_histories='ks <= 4 space and kt <= 6 time bisections of the leaf at a corner point of a root cell (%s)' % ('(4,6), space first, corners at t = 0' if quick else 'ten (ks,kt) combinations, three orders, all corners'), sigma=cfg['sigmas'], K=K,
